@@ -22,6 +22,7 @@ use std::{result, thread};
 use std::sync::Arc;
 
 use glob::{glob, Paths};
+use libfs::is_same_file;
 use libxcp::config::{Config, Reflink};
 use libxcp::drivers::load_driver;
 use libxcp::errors::{Result, XcpError};
@@ -140,6 +141,14 @@ fn main() -> Result<()> {
 
         if source == &target_base {
             return Err(XcpError::InvalidSource("Source is same as destination").into());
+        }
+        if target_base.exists() {
+            if is_same_file(source, &target_base)? {
+                return Err(XcpError::InvalidSource("Source is same as destination").into());
+            }
+            if source.is_dir() && !target_base.is_dir() {
+                return Err(XcpError::InvalidDestination("Cannot copy a directory to a file.").into());
+            }
         }
     }
 
